@@ -6,7 +6,9 @@ EXTENDS PongoApi, Json
 VARIABLE dfiles
 Failing == << <<"{{ 1/0 }}">>, <<"{{ fme() }}">>, <<"{{ 5|pluralize:\"a,b,c\" }}">>, <<"{% include nosuch %}">>, <<"{{ lm(1, 2, 3) }}">>, <<"{{ nope|yesno:\"a\" }}">>,
              <<"{{ 7 % 0 }}">>, <<"{% widthratio 1 0 1 %}">>, <<"{{ \"a\"|nosuchfilter }}">>, <<"{% nosuchtag %}">>, <<"{{ (1 }}">>, <<"{% if %}">>,
-             <<"{% include \"/missing\" %}">>, <<"{{ rstr(1) }}">>, <<"{% for %}">>, <<"{{ \"x }}">> >>
+             <<"{% include \"/missing\" %}">>, <<"{{ rstr(1) }}">>, <<"{% for %}">>, <<"{{ \"x }}">>,
+             \* a block tag that is never closed, with a trimming delimiter in front of the text that follows it (the error reports that text)
+             <<"{% if 1 -%}">>, <<"{% for i in \"ab\" -%}  \t">>, <<"{% with a=1 %}{{ a -}}\n ">> >>
 Prefixes == << <<>>, <<"x\n\n  ">>, <<"UTF8", "\r\n", "{# c #}">>, <<"{% verbatim %}{{{% endverbatim %}\n\t">>, <<"{{ \"a\\\"b\" }}\n", "  ">> >>
 Places == <<"top", "childblock", "super", "parentblock", "included", "imported", "nestedinclude">>
 DiagInit ==
